@@ -2802,7 +2802,17 @@ class FileSet:
             # end date. Imagine there is only hour and minute given, then day
             # change would not be noticed. Therefore, make sure that the end
             # date is always bigger (later) than the start date.
-            if end_date < start_date:
+            end_doy = filled_placeholder.get("end_doy", None)
+            if end_date < start_date and end_doy is not None \
+                    and filled_placeholder.get("end_year", None) is None \
+                    and filled_placeholder.get("end_year2", None) is None:
+                # A day of year without its year that precedes the start
+                # belongs to the next year (and has to be counted there:
+                # leap years shift the date of a day of year).
+                end_date = end_date.replace(
+                    year=start_date.year + 1, month=1, day=1,
+                ) + timedelta(days=int(end_doy) - 1)
+            elif end_date < start_date:
                 # Months and years have no fixed length, go to the same day
                 # of the next month / year instead of adding 31 / 366 days:
                 months = {
